@@ -557,6 +557,23 @@ func ruleMedianReadOnly(w *World, r *Report, pfx string) {
 			return -1
 		}
 		okShift = from(stores[0]) == 1 && from(stores[1]) == 2 && stores[2] == ssa.Value(add.Params[1])
+		// the newest sample goes in after the old ones were moved down (s[2] is read before it is overwritten)
+		iLoad2, iStore2 := -1, -1
+		for i, in := range add.Blocks[0].Instrs {
+			if ld, ok := in.(*ssa.UnOp); ok && from(ld) == 2 {
+				iLoad2 = i
+			}
+			if st, ok := in.(*ssa.Store); ok {
+				if ia, ok := st.Addr.(*ssa.IndexAddr); ok {
+					if k, ok := constInt(ia.Index); ok && k == 2 {
+						iStore2 = i
+					}
+				}
+			}
+		}
+		if iLoad2 < 0 || iStore2 < iLoad2 {
+			okShift = false
+		}
 	}
 	r.Check(okShift, rule, "medianWindow.Add", w.pos(add.Pos()), "FIFO shift by one", "Add does not evict the oldest sample")
 	// Value is the median: the middle element of the sorted copy
